@@ -102,7 +102,7 @@ Ltac wcase w w' := destruct (Nat.eq_dec w w') as [<-|Hne];
 Lemma pres_Enq : forall w s s', Inv s -> step (Enq w) s = Some s' -> Inv s'.
 Proof.
   intros w s s' I H. unfold step in H.
-  destruct (nth_error (ws s) w) as [[d| | | | |]|] eqn:Ew; try discriminate.
+  destruct (nth_error (ws s) w) as [[d| | | |]|] eqn:Ew; try discriminate.
   destruct ((d <? nth w (ks s) 0) && (N.of_nat (length (wch s)) <? capW s)%N) eqn:G; try discriminate. inv_some.
   apply andb_prop in G as [G _]. apply Nat.ltb_lt in G.
   destruct I as [K0 K1 K2 K2n K3 KI2 K4]. constructor; cbn.
@@ -147,24 +147,16 @@ Qed.
 Lemma pres_RdHave : forall w s s', Inv s -> step (RdHave w true) s = Some s' -> Inv s'.
 Proof.
   intros w s s' I H. unfold step in H.
-  destruct (nth_error (ws s) w) as [[d| | | | |]|] eqn:Ew; try discriminate.
+  destruct (nth_error (ws s) w) as [[d| | | |]|] eqn:Ew; try discriminate.
   destruct ((d =? nth w (ks s) 0) && Bool.eqb true (have s)) eqn:G; try discriminate. inv_some.
   apply andb_prop in G as [G _]. apply Nat.eqb_eq in G.
   eapply pres_local; eauto; try discriminate. intros i Hi _. cbn. lia.
 Qed.
 
-Lemma pres_RdLen : forall w b s s', Inv s -> step (RdLen w b) s = Some s' -> Inv s'.
-Proof.
-  intros w b s s' I H. unfold step in H.
-  destruct (nth_error (ws s) w) as [[d| | | | |]|] eqn:Ew; try discriminate.
-  destruct (Bool.eqb b (0 <? length (fch s))); try discriminate. inv_some.
-  eapply pres_local; eauto; try discriminate; destruct b; try discriminate; auto.
-Qed.
-
 Lemma pres_SendTok : forall w s s', Inv s -> step (SendTok w) s = Some s' -> Inv s'.
 Proof.
   intros w s s' I H. unfold step in H.
-  destruct (nth_error (ws s) w) as [[d| | | | |]|] eqn:Ew; try discriminate.
+  destruct (nth_error (ws s) w) as [[d| | | |]|] eqn:Ew; try discriminate.
   destruct (N.of_nat (length (fch s)) <? capF s)%N; try discriminate. inv_some.
   destruct I as [K0 K1 K2 K2n K3 KI2 K4]. constructor; cbn.
   - intros w' f. wcase w w'; [discriminate | apply K0].
@@ -321,7 +313,7 @@ Qed.
 Lemma pres_LAckL : forall s s', Inv s -> step LAckL s = Some s' -> Inv s'.
 Proof.
   intros s s' I H. unfold step in H. destruct (lp s) as [| |k f|f| |] eqn:El; try discriminate.
-  destruct (nth_error (ws s) f) as [[d| | | | |]|] eqn:Ew; try discriminate. inv_some.
+  destruct (nth_error (ws s) f) as [[d| | | |]|] eqn:Ew; try discriminate. inv_some.
   destruct I as [K0 K1 K2 K2n K3 KI2 K4]. unfold located, cover in *. rewrite El in *. cbn in *.
   inversion K2n as [|? ? Hnin Hnd]; subst.
   constructor; unfold located, cover; cbn.
@@ -345,7 +337,6 @@ Proof.
   intros l s s' Hs I H. destruct l; try discriminate Hs.
   - eapply pres_Enq; eauto.
   - destruct b; try discriminate Hs. eapply pres_RdHave; eauto.
-  - eapply pres_RdLen; eauto.
   - eapply pres_SendTok; eauto.
   - eapply pres_LStart; eauto.
   - eapply pres_LRecv; eauto.
@@ -415,27 +406,23 @@ Proof.
     destruct (J4 _ I w i Hw Hi); auto.
 Qed.
 
-(* ------------------------------------------------------------------ without the early return *)
-Definition not_early_ret (p : wpc) : Prop := match p with WRet REarly => False | WRet RInline => False | _ => True end.
+(* ------------------------------------------------------------------ every return is an acknowledgement *)
+Definition not_inline_ret (p : wpc) : Prop := match p with WRet RInline => False | _ => True end.
 
-Lemma step_no_early : forall l s s', steady l = true -> no_early l = true ->
-  (forall w p, nth_error (ws s) w = Some p -> not_early_ret p) -> step l s = Some s' ->
-  (forall w p, nth_error (ws s') w = Some p -> not_early_ret p).
+Lemma step_not_inline : forall l s s', steady l = true ->
+  (forall w p, nth_error (ws s) w = Some p -> not_inline_ret p) -> step l s = Some s' ->
+  (forall w p, nth_error (ws s') w = Some p -> not_inline_ret p).
 Proof.
-  intros l s s' Hs Hn Hall H w' p' Hp'.
-  destruct l; try discriminate Hs; try discriminate Hn; unfold step in H.
-  - destruct (nth_error (ws s) w) as [[d| | | | |]|] eqn:Ew; try discriminate.
+  intros l s s' Hs Hall H w' p' Hp'.
+  destruct l; try discriminate Hs; unfold step in H.
+  - destruct (nth_error (ws s) w) as [[d| | | |]|] eqn:Ew; try discriminate.
     destruct ((d <? nth w (ks s) 0) && (N.of_nat (length (wch s)) <? capW s)%N); try discriminate. inv_some.
     cbn in Hp'. wcase w w'; [inversion Hp'; exact I | eauto].
   - destruct b; try discriminate Hs.
-    destruct (nth_error (ws s) w) as [[d| | | | |]|] eqn:Ew; try discriminate.
+    destruct (nth_error (ws s) w) as [[d| | | |]|] eqn:Ew; try discriminate.
     destruct ((d =? nth w (ks s) 0) && Bool.eqb true (have s)); try discriminate. inv_some.
     cbn in Hp'. wcase w w'; [inversion Hp'; exact I | eauto].
-  - destruct pos; try discriminate Hn.
-    destruct (nth_error (ws s) w) as [[d| | | | |]|] eqn:Ew; try discriminate.
-    destruct (Bool.eqb false (0 <? length (fch s))); try discriminate. inv_some.
-    cbn in Hp'. wcase w w'; [inversion Hp'; exact I | eauto].
-  - destruct (nth_error (ws s) w) as [[d| | | | |]|] eqn:Ew; try discriminate.
+  - destruct (nth_error (ws s) w) as [[d| | | |]|] eqn:Ew; try discriminate.
     destruct (N.of_nat (length (fch s)) <? capF s)%N; try discriminate. inv_some.
     cbn in Hp'. wcase w w'; [inversion Hp'; exact I | eauto].
   - destruct (lp s); try discriminate. inv_some. eauto.
@@ -452,36 +439,36 @@ Proof.
     destruct (fl_step f s) as [[[f'|] s1]|] eqn:Ef; try discriminate; inv_some;
       cbn in Hp'; pose proof (Hws _ eq_refl) as Hw1; cbn in Hw1; rewrite Hw1 in Hp'; eauto.
   - destruct (lp s) as [| |k f|f| |]; try discriminate.
-    destruct (nth_error (ws s) f) as [[d| | | | |]|] eqn:Ew; try discriminate. inv_some.
+    destruct (nth_error (ws s) f) as [[d| | | |]|] eqn:Ew; try discriminate. inv_some.
     cbn in Hp'. wcase f w'; [inversion Hp'; exact I | eauto].
   - inv_some. eauto.
   - destruct (lp s); try discriminate. destruct (shut s); try discriminate. inv_some. eauto.
   - destruct (lp s); try discriminate. inv_some. eauto.
 Qed.
 
-Lemma run_no_early : forall ls s s', forallb steady ls = true -> forallb no_early ls = true ->
-  (forall w p, nth_error (ws s) w = Some p -> not_early_ret p) -> run_labels s ls = Some s' ->
-  (forall w p, nth_error (ws s') w = Some p -> not_early_ret p).
+Lemma run_not_inline : forall ls s s', forallb steady ls = true ->
+  (forall w p, nth_error (ws s) w = Some p -> not_inline_ret p) -> run_labels s ls = Some s' ->
+  (forall w p, nth_error (ws s') w = Some p -> not_inline_ret p).
 Proof.
-  induction ls as [|l r IH]; intros s s' Hs Hn Hall H; cbn in *.
+  induction ls as [|l r IH]; intros s s' Hs Hall H; cbn in *.
   - inv_some. exact Hall.
-  - apply andb_prop in Hs as [Hs1 Hs2]. apply andb_prop in Hn as [Hn1 Hn2].
+  - apply andb_prop in Hs as [Hs1 Hs2].
     destruct (step l s) as [s1|] eqn:E; try discriminate.
-    apply (IH s1 s' Hs2 Hn2); [eapply step_no_early; eauto | exact H].
+    apply (IH s1 s' Hs2); [eapply step_not_inline; eauto | exact H].
 Qed.
 
-(** The guarded statement: in a steady schedule in which no writer takes the early return
-    (wal.go:795-797 removed, i.e. every writer queues its own token and waits), EVERY writer that
-    returned is flushed. *)
-Theorem no_early_all_flushed : forall ks0 cw cf ls s w,
-  forallb steady ls = true -> forallb no_early ls = true ->
+(** The full statement for the code after the fix of F10: in EVERY schedule of concurrent writers with
+    the background WAL writer (steady: no writer reads haveWALWriter = false), every writer whose
+    WriteCSM returned has all its commands fsynced in the WAL and written to the primary files. *)
+Theorem returned_flushed : forall ks0 cw cf ls s w,
+  forallb steady ls = true ->
   run_labels (init ks0 cw cf) ls = Some s ->
   returned s w = true -> flushed s w = true.
 Proof.
-  intros ks0 cw cf ls s w Hs Hn Hr Hw. unfold returned in Hw.
-  destruct (nth_error (ws s) w) as [[d| | | | |r]|] eqn:Ew; try discriminate.
-  assert (X : not_early_ret (WRet r)).
-  { eapply run_no_early; eauto. intros w0 p0 H0. unfold init in H0; cbn in H0.
+  intros ks0 cw cf ls s w Hs Hr Hw. unfold returned in Hw.
+  destruct (nth_error (ws s) w) as [[d| | | |r]|] eqn:Ew; try discriminate.
+  assert (X : not_inline_ret (WRet r)).
+  { eapply run_not_inline; eauto. intros w0 p0 H0. unfold init in H0; cbn in H0.
     rewrite nth_error_map in H0. destruct (nth_error ks0 w0); inversion H0. exact I. }
   destruct r; cbn in X; try contradiction. eapply acked_flushed; eauto.
 Qed.
